@@ -8,3 +8,6 @@ open GqlVerif.C10
 #print axioms wire_is_schema_name
 #print axioms codegen_tables_wf
 #print axioms serde_model_enum
+#print axioms ident_ne_other
+#print axioms declared_idents_nodup
+#print axioms ident_eq_unless_other
